@@ -269,7 +269,7 @@ pub fn generate(input: TokenStream) -> TokenStream {
     // The impl is written over the source lifetime: lifetimes (and type parameters) in the error
     // and extras types are fixed up like those of the variants' fields.
     let fix_type = |tokens: TokenStream| match syn::parse2::<syn::Type>(tokens.clone()) {
-        Ok(mut ty) => parser.get_type(&mut ty),
+        Ok(mut ty) => parser.get_associated_type(&mut ty),
         Err(_) => tokens,
     };
     let error_type = fix_type(error_type);
